@@ -405,7 +405,7 @@ Definition k_redelegate (del src : Z) (svi : ValInfo) (dst : Z) (dvi : ValInfo) 
       odd <- get_delegation del dst denom ;;
       dvi1 <- match odd with
               | Some _ => claim_delegation_rewards del dst dvi denom
-              | None => ret dvi
+              | None => claim_validator_rewards dst dvi
               end ;;
       sh <- validate_delegated_amount sd amt svi1 a ;;
       if del_tokens_with_shares sh svi1 a <? amt then fail E_INSUFFICIENT_TOKENS
@@ -456,6 +456,10 @@ Definition slash_redelegations (v fraction : Z) : M unit :=
         | None => fail E_MISSING_RECORD
         | Some r =>
           '(_, dvi) <- get_alliance_validator (r_dst r) ;;
+          od0 <- get_delegation (r_del r) (r_dst r) (r_denom r) ;;
+          match od0 with
+          | None => ret tt            (* everything was moved out of the destination since *)
+          | Some _ =>
           dvi1 <- claim_delegation_rewards (r_del r) (r_dst r) dvi (r_denom r) ;;
           od <- get_delegation (r_del r) (r_dst r) (r_denom r) ;;
           match od with
@@ -466,8 +470,10 @@ Definition slash_redelegations (v fraction : Z) : M unit :=
             | None => ret tt
             | Some a =>
               let tok := dtrunc (dmul_int fraction (r_amount r)) in
-              (if tok <? 0 then panic P_NEG_COIN else ret tt) ;;;
-              sh <- validate_delegated_amount d tok dvi1 a ;;
+              (* capped at what the destination position holds *)
+              sh <- (if del_tokens d dvi1 a <=? tok then ret (d_shares d)
+                     else (if tok <? 0 then panic P_NEG_COIN else ret tt) ;;;
+                          validate_delegated_amount d tok dvi1 a) ;;
               (if sh <? 0 then panic P_NEG_COIN else ret tt) ;;;
               let ds := csub (vi_dshares dvi1) (cadd1 [] (a_denom a) sh) in
               (if cany_neg ds then panic P_NEG_COIN else ret tt) ;;;
@@ -475,23 +481,26 @@ Definition slash_redelegations (v fraction : Z) : M unit :=
               set_delegation (r_del r) (r_dst r) (a_denom a) (set_d_shares (d_shares d - sh) d)
             end
           end
+          end
         end
     | _ => fail E_MISSING_RECORD
     end).
 
-(* slashUndelegations: walks the per-validator index and slashes EVERY entry of
-   the bucket each index key points at (fresh read per key) *)
+(* slashUndelegations: walks the per-validator index (fresh read of the bucket per
+   key) and slashes the entries of the bucket that the key stands for: those of
+   this validator and of the key's denom *)
 Definition slash_undelegations (v fraction : Z) : M unit :=
   idx <- gets (fun s => kfilter (kprefix [v]) (undelidx s)) ;;
   t <- gets now ;;
   mfor idx (fun ku =>
     match fst ku with
-    | [_; ct; _; del] =>
+    | [_; ct; dn; del] =>
       if ct <? t then ret tt
       else
         ob <- gets (fun s => kget (undelq s) [ct; del]) ;;
         let entries := match ob with Some l => l | None => [] end in
         entries' <- mfold entries [] (fun acc e =>
+          if negb ((u_val e =? v) && (u_denom e =? dn)) then ret (acc ++ [e]) else
           let tok := dtrunc (dmul_int fraction (u_amount e)) in
           (if (u_amount e - tok <? 0) || (tok <? 0) then panic P_NEG_COIN else ret tt) ;;;
           c <- coin1 (u_denom e) tok ;;
@@ -718,7 +727,8 @@ Definition staking_unbond (v sh : Z) : M Z :=
       | None => fail E_STAKING
       | Some sv =>
         let rest := dsh - sh in
-        (if rest =? 0 then modify (fun s => set_sdels (kdel (sdels s) [v]) s)
+        (* alliance Hooks.BeforeDelegationRemoved / AfterDelegationModified *)
+        (if rest =? 0 then modify (fun s => set_sdels (kdel (sdels s) [v]) s) ;;; queue_rebalance
          else modify (fun s => set_sdels (kset (sdels s) [v] rest) s) ;;; queue_rebalance) ;;;
         let remaining := sv_shares sv - sh in
         issued <- (if remaining =? 0 then ret (sv_tokens sv)
@@ -816,6 +826,7 @@ Definition msg_create_alliance (m : AllianceMsg) : M unit :=
           if rt <=? 0 then fail E_INVALID_ARG
           else if m_interval m <? 0 then fail E_INVALID_ARG
           else if negb (m_auth m =? AUTHORITY) then fail E_UNAUTHORIZED
+          else if m_denom m =? BOND_DENOM then fail E_INVALID_ARG
           else
             oa <- get_asset (m_denom m) ;;
             match oa with
@@ -878,9 +889,10 @@ Definition msg_delete_alliance (auth denom : Z) : M unit :=
       else modify (fun s => set_assets (kdel (assets s) [denom]) s)
     end.
 
-(* MsgUpdateParams: only negative durations are refused (runtime validation) *)
+(* MsgUpdateParams: a negative delay and a non-positive claim interval are refused *)
 Definition msg_update_params (auth delay interval last : Z) : M unit :=
   if delay <? 0 then fail E_NEG_DURATION
+  else if interval <=? 0 then fail E_NEG_DURATION
   else if negb (auth =? AUTHORITY) then fail E_UNAUTHORIZED
   else if interval <? 0 then fail E_NEG_DURATION
   else modify (set_params (mkParams delay interval last)).
